@@ -10,6 +10,9 @@ Mirror of the bookkeeping in /repo/phasegen/inference.py:
 The optimiser is a parameter: a run is just the point it returned and the objective value there.
 "The object has been run" is, as in the code, `loss_inferred is not None`, i.e. `best.isSome`
 (`State.ran`); there is no separate flag in the Python object either.
+The last section ("labelled parameters") keeps the parameter NAMES through `_optimize` (l.294-344)
+and `_run`: `KV`, `Variant`, `optimizeArgs`, `startPoints`, `runOne`, `labelResults`, `runLabelled`
+(theorems: PGProofs/InferenceLabels.lean; driver command `inferlab`).
 No imports: this file is linked into the `pgdriver` executable.
 -/
 import PGModel.Basic
@@ -160,5 +163,143 @@ def replay (s : State) (ops : List Op) : State × List Nat :=
     match step acc.1 p.1 with
     | .ok s' => (s', acc.2)
     | .error _ => (acc.1, acc.2 ++ [p.2])) (s, []))
+
+/-! ### labelled parameters: which name every optimiser coordinate gets
+
+`Inference._optimize(x0: dict, bounds: dict, …)` (l.294-344) and `Inference._run` (l.346-414) talk to
+scipy's L-BFGS-B, which is purely POSITIONAL: it gets a start vector `list(x0.values())`, a list of
+boxes `[bounds[key] for key in x0.keys()]` and an objective on positional vectors, which
+`_get_loss_function` labels with `x0.keys()` (`params_dict = dict(zip(x0.keys(), params))`, l.270).
+`_run` finally labels the winner's vector with `self.x0.keys()` (l.398).  The model above
+(`Run`, `runWith`) only sees positions; the section below keeps the names.
+
+A Python dict is an insertion-ordered association list (`KV`); the optimiser is a parameter
+`opt start boxes objective`; the user's loss `L` is a function of the labelled dict.
+
+Variants:
+* `repaired`      the current code: every sampled start point is re-listed in the key order of `x0`
+                  (`{k: s[k] for k in self.x0}`, l.380)
+* `pinned`        the pinned code: sampled start points stay in the key order of `bounds`
+                  (`[self.x0] + [self._sample() …]`), but the winner is labelled with `x0`'s keys
+* `boundsValues`  seeded: `_optimize` takes `list(bounds.values())` as the boxes
+-/
+
+/-- A Python `dict` with `str` keys: association list in insertion order. -/
+abbrev KV (α : Type) := List (String × α)
+
+/-- `d.keys()` -/
+abbrev KV.keys {α} (d : KV α) : List String := d.map Prod.fst
+
+/-- `d.values()` -/
+abbrev KV.values {α} (d : KV α) : List α := d.map Prod.snd
+
+/-- `d[k]` (`none`: `KeyError`). -/
+def lookup {α} : KV α → String → Option α
+  | [], _ => none
+  | (k', v) :: t, k => if k' = k then some v else lookup t k
+
+/-- All entries are present (`none` as soon as one lookup raised). -/
+def allSome {α} : List (Option α) → Option (List α)
+  | [] => some []
+  | none :: _ => none
+  | some a :: t => match allSome t with
+    | none => none
+    | some r => some (a :: r)
+
+inductive Variant where
+  | repaired
+  | pinned
+  | boundsValues
+  deriving DecidableEq, Repr
+
+/-- `[bounds[key] for key in keys]` -/
+def boxesFor (bounds : KV (Rat × Rat)) (keys : List String) : Option (List (Rat × Rat)) :=
+  allSome (keys.map (lookup bounds))
+
+/-- What `_optimize(x0, bounds)` hands to `scipy.optimize.minimize`: the positional start vector
+`np.array(list(x0.values()))` and the positional list of boxes. -/
+def optimizeArgs (v : Variant) (x0 : KV Rat) (bounds : KV (Rat × Rat)) :
+    Option (List Rat × List (Rat × Rat)) :=
+  match v with
+  | .boundsValues => some (x0.values, bounds.values)
+  | _ => match boxesFor bounds x0.keys with
+    | none => none
+    | some bs => some (x0.values, bs)
+
+/-- `{k: s[k] for k in keys}` -/
+def relist (keys : List String) (s : KV Rat) : Option (KV Rat) :=
+  allSome (keys.map fun k => (lookup s k).map fun v => (k, v))
+
+/-- The `data` of `_run`: the start points of the `n_runs` optimisations
+(`samples` are the `n_runs - 1` values of `self._sample()`, dicts in the key order of `bounds`). -/
+def startPoints (v : Variant) (x0 : KV Rat) (samples : List (KV Rat)) : Option (List (KV Rat)) :=
+  match v with
+  | .pinned => some (x0 :: samples)
+  | _ => match allSome (samples.map (relist x0.keys)) with
+    | none => none
+    | some ss => some (x0 :: ss)
+
+/-- A positional box-constrained optimiser: start vector, boxes, objective ↦ point. -/
+abbrev Optimizer := List Rat → List (Rat × Rat) → (List Rat → Rat) → List Rat
+
+/-- One call of `_optimize` from the start dict `d`: the positional objective is
+`fun y => L (dict(zip(d.keys(), y)))`; `OptimizeResult.fun` is the objective at `OptimizeResult.x`. -/
+def runOne (v : Variant) (opt : Optimizer) (L : KV Rat → Rat) (bounds : KV (Rat × Rat))
+    (d : KV Rat) : Option Run :=
+  match optimizeArgs v d bounds with
+  | none => none
+  | some (start, bs) =>
+    let x := opt start bs (fun y => L (d.keys.zip y))
+    some { x := x, f := L (d.keys.zip x) }
+
+/-- The labelling part of `_run` (l.395-408): first minimum, `dict(zip(list(self.x0.keys()), result.x))`,
+`result.fun`, `[r.fun for r in results]`.  The same in every variant. -/
+def labelResults (x0keys : List String) (results : List Run) : Option (KV Rat × Rat × List Rat) :=
+  match bestOf results with
+  | none => none
+  | some b => some (x0keys.zip b.x, b.f, results.map (·.f))
+
+/-- The key order of the boxes the `i`-th optimisation (0-based) is given, in terms of the key lists
+only: what differs between the variants. -/
+def boxKeyOrder (v : Variant) (boundsKeys x0keys : List String) (i : Nat) : List String :=
+  match v, i with
+  | .boundsValues, _ => boundsKeys
+  | .pinned, _ + 1 => boundsKeys
+  | _, _ => x0keys
+
+/-- The keys the positional objective of the `i`-th optimisation labels its argument with
+(`dict(zip(x0.keys(), params))` in `_get_loss_function`): the key order of the `i`-th start dict. -/
+def labelKeyOrder (v : Variant) (boundsKeys x0keys : List String) (i : Nat) : List String :=
+  match v, i with
+  | .pinned, _ + 1 => boundsKeys
+  | _, _ => x0keys
+
+/-- `labelKeyOrder` for runs `0 … n-1`. -/
+def labelKeyOrders (v : Variant) (boundsKeys x0keys : List String) (n : Nat) : List (List String) :=
+  (List.range n).map (labelKeyOrder v boundsKeys x0keys)
+
+/-- `boxKeyOrder` for runs `0 … n-1`. -/
+def boxKeyOrders (v : Variant) (boundsKeys x0keys : List String) (n : Nat) : List (List String) :=
+  (List.range n).map (boxKeyOrder v boundsKeys x0keys)
+
+/-- `_run`: (`params_inferred`, `loss_inferred`, `loss_runs`); `none` when a `KeyError` is raised. -/
+def runLabelled (v : Variant) (opt : Optimizer) (L : KV Rat → Rat) (bounds : KV (Rat × Rat))
+    (x0 : KV Rat) (samples : List (KV Rat)) : Option (KV Rat × Rat × List Rat) :=
+  match startPoints v x0 samples with
+  | none => none
+  | some starts =>
+    match allSome (starts.map (runOne v opt L bounds)) with
+    | none => none
+    | some results => labelResults x0.keys results
+
+/-- The optimiser "project the start point onto the box" (for examples). -/
+def clampOpt : Optimizer := fun start bs _ =>
+  List.zipWith (fun (s : Rat) (b : Rat × Rat) => if s < b.1 then b.1 else if b.2 < s then b.2 else s) start bs
+
+/-- `lo ≤ v ≤ hi` for the box `bounds[k]` (false when `k` has no box). -/
+def inOwnBox (bounds : KV (Rat × Rat)) (k : String) (v : Rat) : Bool :=
+  match lookup bounds k with
+  | none => false
+  | some b => decide (b.1 ≤ v) && decide (v ≤ b.2)
 
 end PG.Inference
